@@ -121,7 +121,13 @@ pub fn spec_for(id: &str) -> Option<Spec> {
         }
         "C05" => Spec {
             id: "C05",
-            profile: base("safety", W_SAFETY),
+            profile: {
+                // a larger share of single-voter groups with learners: the leader that crashes with entries it
+                // sent but never persisted is then re-elected at once
+                let mut p = base("safety", W_SAFETY);
+                p.sole_p = 24;
+                p
+            },
             monitors: P05,
             options: 0,
             rule: "non-trivial = a truncating append occurred, or a leader crashed holding entries it had not persisted, or an append was split by max_size_per_msg",
